@@ -76,4 +76,13 @@ PROPS = {
         "level_note": "Trusted: Lean kernel; the extractor (extract/main.go) and its exclusion list (tests, *.pb.go, simulation, mocks, CLI); hand-written models. Partial: goroutine scheduling and wall-clock independence are shown only as 'no such construct on a consensus path' (fact table) plus replay evidence; the Go runtime itself is not modelled.",
         "trusted": ["extract/main.go (go/packages) and its file exclusions", "models Chain/Aggregate.lean, Chain/Rewards.lean"],
     },
+    "C15": {
+        "props_module": "LayerModel.Props.C15",
+        "families": [("valset", 1500, 40000), ("checkpoint", 1500, 40000), ("attest", 2500, 60000), ("qid", 1000, 30000), ("wvalue", 1500, 40000), ("sigconv", 300, 5000)],
+        "gen": ["facts", "formulas", "sol:scan"],
+        "rule": "valset: sets with >= 2 members; checkpoint: 32-byte hashes; attest: well-formed 32-byte ids with value length not a multiple of 32; qid/wvalue/sigconv: every case; distinct = distinct input lines",
+        "level_text": "Theorems for all inputs: the hand-rolled validator-set bytes equal abi.encode(Validator[]) for every list; checkpoint and attestation pre-images equal the contract's abi.encode pre-images (so digests agree for ANY hash function); query-id data and domain separators agree byte for byte; threshold = floor(2*total/3) (formula regenerated) and >2/3 of the power reaches it; encodePacked(bytes32)=identity for the signature digest convention. The ABI type lists/literals of the Go encoders and of the contracts' abi.encode/abi.decode are regenerated from both sources on every run and proved equal (decide). Tie: every exported encoder is run on generated inputs and compared with the Lean model's bytes / executable Keccak-256 digests; the contract-side formulation runs as monitor; signatures: sign like the SDK keyring, recover like ecrecover(sha256(digest)).",
+        "level_note": "Trusted: Lean kernel; ABI specification transcribed from the Solidity documentation (Base/Abi.lean, fragment: static words, bytes/string, array of static tuples); go-ethereum Pack modelled by the same function and differential-tested; Solidity compiler output not executed (no solc/EVM in the sandbox); keccak/sha256/ECDSA are parameters in theorems (executable Keccak only in the driver).",
+        "trusted": ["Base/Abi.lean = ABI spec fragment", "extract/sol_scan.py (regular scanner over three contracts)", "extract/main.go goAbi"],
+    },
 }
